@@ -28,7 +28,7 @@ ASSUMPTIONS = ["port names and hardware addresses are unique among the ports "
                "that exist at the same time",
                "a statistics reply whose final part never arrives is simply "
                "never announced"]
-REQUIRED = ["port_histories", "views_compared", "renames", "deletes",
+REQUIRED = ["port_status_for_a_port_a_reply_under_way_reports_on", "port_histories", "views_compared", "renames", "deletes",
             "readds", "stale_name_lookups", "stats_histories",
             "multipart_events", "interleaved_histories", "sequential_pairs",
             "features_refreshes", "early_port_status",
@@ -401,7 +401,7 @@ def run_stats (case, rep):
     for lid in lids: core.openflow.removeListener(lid)
 
 
-NOISE_KINDS = 17
+NOISE_KINDS = 20
 
 
 def rep_has_fired (rep):
@@ -409,8 +409,13 @@ def rep_has_fired (rep):
 
 
 
-def noise_message (nk, x):
+def noise_message (nk, x, port=1):
   E = ofwire.enc_message
+  if nk >= 17:
+    # the port one of the reply's entries is about is added, deleted or
+    # modified while the reply is under way (or before it): the port view's
+    # business - the statistics event still carries every entry received
+    return E("port_status", dict(xid=0, reason=nk - 17, desc=ctl.phy_port(port)))
   if nk < 6:
     # an error of each type, BAD_REQUEST first
     t = [1, 1, 0, 2, 3, 5][nk]
@@ -473,7 +478,9 @@ def _run_stats_body (case, rep, fire, peer, got, other=None, other_got=None):
       # unrelated message of theirs may share one)
       _, nk, ri = which
       x = reqs[ri % len(reqs)]["xid"]
-      raw = noise_message(nk, x)
+      ids = [i for p in reqs[ri % len(reqs)]["parts"] for i in p]
+      raw = noise_message(nk, x, port=(ids[0] & 0xffff) if ids else 1)
+      if nk >= 17: rep.count("port_status_for_a_port_a_reply_under_way_reports_on")
       rep.count("other_messages_sharing_a_request_xid")
       before = len(got)
       if not peer.feed(raw):
